@@ -21,7 +21,7 @@ func (c15) ID() string { return "C15" }
 func (c15) Meta() Meta {
 	return Meta{
 		Level:       "exploration",
-		Rule:        "reference-model monitor: for fixtures and generated schema/configuration pairs (conforming configurations plus injected unknown attributes/blocks, surplus/missing labels, too many blocks, missing required attributes, deprecated items; base files, prefixes and token edits) ValidateFile with the stock validators is compared as a multiset on (severity, rule, offending item) with M-valid, an independent implementation of the eight rules over the model's effective schema (static + dependent body by the model's own key lookup, 'nothing unexpected below an unresolved dependent body', dynamic block satisfies the minimum), and every subject range must lie on the offending item. Diagnostics inside synthesized dynamic blocks are a declared don't-care zone. distinct non-trivial = file states with >= 2 distinct rule kinds firing, keyed by (source, state).",
+		Rule:        "reference-model monitor: for fixtures and generated schema/configuration pairs (conforming configurations plus injected unknown attributes/blocks, surplus/missing labels, too many blocks, missing required attributes, deprecated items; base files, prefixes and token edits) ValidateFile with the stock validators is compared as a multiset on (severity, rule, offending item) with M-valid, an independent implementation of the eight rules over the model's effective schema (static + dependent body by the model's own key lookup, 'nothing unexpected below an unresolved dependent body', a dynamic block satisfies the minimum where the merged body's extensions have DynamicBlocks), and every subject range must lie on the offending item. Diagnostics inside the content of dynamic blocks are a declared don't-care zone, but whether the dynamic block itself is expected is decided exactly: the model follows the DynamicBlocks extension through the merges (own flag of the static body or handed down by the enclosing merged body; block types registered with the synthesised dynamic block; content = static body of the type) - a dynamic block known to its body must not be reported as unexpected, one unknown to it must be (outside unknown-schema zones, on unmutated files). distinct non-trivial = file states with >= 2 distinct rule kinds firing, keyed by (source, state).",
 		Assumptions: []string{"message wording and order are not compared", "subject extent: only 'lies within the offending item (or its enclosing block for body-level rules)' is required"},
 		Floor:       map[string]int{"quick": 60, "thorough": 300},
 		CaseBudget:  60,
